@@ -64,6 +64,11 @@ func (u *User) init() error {
 		}
 	}
 
+	// rebuild from the current access strings only: init runs again when a
+	// saved user is updated (CopyFrom), and matchers left over from the
+	// previous rights would keep granting what has just been withdrawn
+	u.pushMatchers = nil
+	u.pullMatchers = nil
 	initMatchers(u.PushAccess, &u.pushMatchers)
 	initMatchers(u.PullAccess, &u.pullMatchers)
 	return nil
